@@ -1201,6 +1201,9 @@ pub fn wf_check(m: &UserModel<'_>) -> Vec<(String, String)> {
                         if r.0 < 1 || r.1 < 1 {
                             fail("c27:array-range-empty", format!("sheet {i} array ({row},{col}) range {:?}", r));
                         }
+                        if r.0 < 1 || r.1 < 1 {
+                            continue;
+                        }
                         let (w, h) = (r.0.clamp(1, 64), r.1.clamp(1, 64));
                         for rr in *row..*row + h {
                             for cc in *col..*col + w {
@@ -1378,7 +1381,9 @@ fn rand_ref(rng: &mut Rng) -> String {
     a1(r, c)
 }
 
-pub fn gen_formula(rng: &mut Rng, st: &St, sheet: u32) -> String {
+/// A formula for the cell (`_row`, `col`); array-valued formulas read from columns their spill cannot reach
+/// (a spill overlapping its own source is circular and its values depend on the evaluation history).
+pub fn gen_formula(rng: &mut Rng, st: &St, sheet: u32, _row: i32, col: i32) -> String {
     match rng.below(16) {
         0 | 1 => "=SUM(A1:A3)+A2".to_string(),
         2 => format!("={}+1", rand_ref(rng)),
@@ -1404,24 +1409,24 @@ pub fn gen_formula(rng: &mut Rng, st: &St, sheet: u32) -> String {
             }
         }
         8 => "=SEQUENCE(2,2)".to_string(),
-        9 => "=A1:A3*2".to_string(),
+        9 => if col >= 4 { "=A1:A3*2".to_string() } else { "=E1:E3*2".to_string() },
         10 => format!("=IF({}>1,\"y\",\"n\")", rand_ref(rng)),
         11 => "=1/0".to_string(),
         12 => format!("={}&\"-\"&{}", rand_ref(rng), rand_ref(rng)),
         13 => format!("=SUM({0}:{0})", col_name(rng.range(1, COLS) as i32)),
-        14 => "=TRANSPOSE(A1:B3)".to_string(),
+        14 => if col >= 3 { "=TRANSPOSE(A1:B3)".to_string() } else { "=TRANSPOSE(E1:F3)".to_string() },
         _ => format!("=$A$1+{}", rand_ref(rng)),
     }
 }
 
-pub fn gen_input(rng: &mut Rng, st: &St, sheet: u32) -> String {
+pub fn gen_input(rng: &mut Rng, st: &St, sheet: u32, row: i32, col: i32) -> String {
     const PLAIN: &[&str] = &[
         "1", "2", "3", "42", "2.5", "-3", "10%", "$5", "1/2/2020", "1e3", "'quoted", "true", "FALSE", "hello", "world",
         "multi\nline", "https://example.com", "www.ironcalc.com", "", "", "#N/A", "12:30", "1,000", "  padded ",
         "a\nb\nc",
     ];
     if rng.chance(2, 5) {
-        gen_formula(rng, st, sheet)
+        gen_formula(rng, st, sheet, row, col)
     } else {
         rng.pick(PLAIN).to_string()
     }
@@ -1509,11 +1514,13 @@ pub fn gen_valid_op(rng: &mut Rng, st: &St) -> Op {
     match w {
         0..=249 => {
             let (row, col) = rc(rng);
-            Op::SetUserInput { sheet, row, col, value: gen_input(rng, st, sheet) }
+            Op::SetUserInput { sheet, row, col, value: gen_input(rng, st, sheet, row, col) }
         }
         250..=274 => {
-            let (row, col) = rc(rng);
-            let f = rng.pick(&["=A1:B2*2", "=SEQUENCE(2,2)", "=A1:A2", "=1+1", "=SUM(A1:A3)", "=B1:C2&\"!\""]).to_string();
+            // anchors in columns A..C (at most two wide), sources in E:F: never self-overlapping
+            let (row, _) = rc(rng);
+            let col = rng.range(1, 3) as i32;
+            let f = rng.pick(&["=E1:F2*2", "=SEQUENCE(2,2)", "=E1:E2", "=1+1", "=SUM(E1:E3)", "=E1:F2&\"!\""]).to_string();
             Op::SetUserArrayFormula { sheet, row, col, width: rng.range(1, 2) as i32, height: rng.range(1, 2) as i32, formula: f }
         }
         275..=299 => Op::RangeClearContents { area: small_area(rng, sheet) },
